@@ -19,8 +19,9 @@ RULE = ("API level (fresh Program per case, no-progress detector on the size loo
         "directory: missing file, self-include, 2-/3-cycles, diamonds, nesting; (6) 19 line templates x 9 characters "
         "outside printable ASCII (Latin-1, U+0100, U+20AC, beyond the BMP, DEL, a control) in strings, character "
         "literals, labels, comments and operands; (7) very long tokens, lines and programs (decimal literals of up to "
-        "5000 digits in 14 operand positions, 5000-character labels, 8000-character strings, 30000-element lists, "
-        "20000 statements); (8) 12 shapes of EQU symbols defined through each other (alias and expression cycles, "
+        "5000 digits in 14 operand positions, 5000-character labels, 8000-character strings, 8000-element lists, "
+        "6000 statements; sizes chosen so that a case takes well under a second - building the image is quadratic in a "
+        "statement's length - and run under a 120 s watchdog); (8) 12 shapes of EQU symbols defined through each other (alias and expression cycles, "
         "chains, undefined ends) x 11 uses x definition before/after use; (9) division by something that is zero "
         "only once symbols are known (7 spellings of zero x 15 positions x definition before/after); (10) 32 numeric "
         "spellings at the edges of the literal grammar (-0, 007, $00000, foreign digits, stray signs) x 19 positions. CLI level (real assembler.py "
@@ -291,12 +292,12 @@ def long_input_cases():
     yield dict(kind="lines", cls="long_input", lines=["L" * 5000 + " NOP \n", " JMP " + "L" * 5000 + "\n"])
     yield dict(kind="lines", cls="long_input", lines=[" NOP ;" + "c" * 30000 + "\n"])
     yield dict(kind="lines", cls="long_input", lines=[" FCC /" + "A" * 8000 + "/\n"])       # building the image is quadratic in the string length: 70000 would take ~20 s
-    yield dict(kind="lines", cls="long_input", lines=[" FCB " + ",".join(["1"] * 30000) + "\n"])
+    yield dict(kind="lines", cls="long_input", lines=[" FCB " + ",".join(["1"] * 8000) + "\n"])
     yield dict(kind="lines", cls="long_input", lines=[" PSHS " + ",".join(["A"] * 3000) + "\n"])
     yield dict(kind="lines", cls="long_input", lines=[" LDA #1" + "+1" * 3000 + "\n"])
     yield dict(kind="lines", cls="long_input", lines=[" LDA " + "[" * 500 + "1" + "]" * 500 + "\n"])
-    yield dict(kind="lines", cls="long_input", lines=[" NOP \n"] * 20000)
-    yield dict(kind="lines", cls="long_input", lines=["L%d NOP \n" % i for i in range(3000)] + [" JMP L%d\n" % i for i in range(3000)])
+    yield dict(kind="lines", cls="long_input", lines=[" NOP \n"] * 6000)
+    yield dict(kind="lines", cls="long_input", lines=["L%d NOP \n" % i for i in range(1500)] + [" JMP L%d\n" % i for i in range(1500)])
 
 
 def enumerated(tier, seed):
@@ -350,7 +351,7 @@ def execute(case):
     labels = ["class:" + case["cls"]]
     special = case["cls"] in ("pcr_sweep", "include", "cli", "odd_chars", "long_input", "equ_cycle", "zero_divisor", "odd_number")
     if kind == "lines":
-        out = driver.assemble(case["lines"])
+        out = driver.assemble(case["lines"], timeout=120.0 if case["cls"] == "long_input" else 20.0)
         bad = _judge_api(out, labels)
         return bad or ok(labels=labels, nontrivial=special or out.kind != "OK")
     if kind == "include":
